@@ -435,6 +435,30 @@ static Janet harness_run(int32_t argc, Janet *argv) {
     return janet_wrap_nil();
 }
 
+/* v <sc> <arity> <vararg> <nconst> <ndefs> <nenvs> <hex u32 LE words>  ->  return code of the real janet_verify */
+static void do_verify(const char *args) {
+    long sc, ar, va, nc, nd, ne;
+    int used = 0;
+    if (sscanf(args, "%ld %ld %ld %ld %ld %ld %n", &sc, &ar, &va, &nc, &nd, &ne, &used) < 6) { printf("bad-op\n"); return; }
+    const char *h = args + used;
+    size_t hl = strlen(h), n = hl / 8;
+    JanetFuncDef *def = janet_funcdef_alloc();
+    uint32_t *bc = malloc(n ? n * 4 : 4);
+    for (size_t i = 0; i < n; i++) {
+        uint32_t w = 0;
+        for (int k = 0; k < 4; k++) w |= (uint32_t)(hexval(h[8 * i + 2 * k]) * 16 + hexval(h[8 * i + 2 * k + 1])) << (8 * k);
+        bc[i] = w;
+    }
+    def->slotcount = (int32_t) sc; def->arity = (int32_t) ar; def->min_arity = 0; def->max_arity = INT32_MAX;
+    def->flags = va ? JANET_FUNCDEF_FLAG_VARARG : 0;
+    def->constants_length = (int32_t) nc; def->defs_length = (int32_t) nd; def->environments_length = (int32_t) ne;
+    def->bytecode = bc; def->bytecode_length = (int32_t) n;
+    printf("%d\n", janet_verify(def));
+    /* leave the def harmless for the collector */
+    def->constants_length = 0; def->defs_length = 0; def->environments_length = 0; def->bytecode = NULL; def->bytecode_length = 0;
+    free(bc);
+}
+
 int main(int argc, char **argv) {
     (void) argc; (void) argv;
     janet_init();
@@ -468,6 +492,7 @@ int main(int argc, char **argv) {
         char op = line[0];
         const char *h = line + 1;
         while (*h == ' ') h++;
+        if (op == 'v') { do_verify(h); fflush(stdout); continue; }
         if (op == 'g') { gc_every = atoi(h); printf("ok\n"); fflush(stdout); continue; }
         if (op == 'x') { do_exercise = atoi(h); printf("ok\n"); fflush(stdout); continue; }
         size_t hl = strlen(h);
